@@ -184,6 +184,25 @@ impl Ctx {
         true
     }
 
+    /// survey mode with the failing value at hand: additionally keeps the smallest failing case of
+    /// every signature as replays/<prop>/new/survey-<sig>.json (development aid)
+    pub fn survey_case<V: Serialize>(&self, sub: &str, value: &V, f: &Failure) -> bool {
+        if std::env::var("VERIF_SURVEY").is_err() {
+            return false;
+        }
+        let body = serde_json::json!({"property": self.prop, "sub": sub, "sig": f.sig, "detail": f.detail, "seed": self.seed, "case": value});
+        let text = serde_json::to_string(&body).unwrap();
+        let dir = self.verif_dir.join("replays").join(&self.prop).join("new");
+        let _ = std::fs::create_dir_all(&dir);
+        let name: String = f.sig.chars().map(|c| if c.is_ascii_alphanumeric() { c } else { '_' }).collect();
+        let path = dir.join(format!("{}-survey-{}.json", sub, name));
+        let smaller = std::fs::metadata(&path).map(|m| (text.len() as u64) < m.len()).unwrap_or(true);
+        if smaller {
+            let _ = std::fs::write(&path, text);
+        }
+        self.survey(f)
+    }
+
     /// pick a size by tier
     pub fn n(&self, quick: u64, thorough: u64) -> u64 {
         let scale = std::env::var("VERIF_SCALE").ok().and_then(|s| s.parse::<f64>().ok()).unwrap_or(1.0);
@@ -509,8 +528,14 @@ pub fn replay_tier<V: DeserializeOwned + Serialize>(
         };
         ctx.stats.class("regression_replays");
         let rel = path.strip_prefix(&ctx.verif_dir).unwrap_or(&path).to_string_lossy().to_string();
-        let known = ctx.known.iter().find(|k| k.replay == rel);
-        match rerun(&rf.case) {
+        let by_path = ctx.known.iter().find(|k| k.replay == rel);
+        let outcome = rerun(&rf.case);
+        // further replays of a known finding are recognised by its signature
+        let known = match (&by_path, &outcome) {
+            (None, Err(f)) => ctx.match_known(f),
+            _ => by_path,
+        };
+        match outcome {
             Ok(()) => {
                 if let Some(k) = known {
                     if k.status == "known" {
